@@ -139,13 +139,63 @@ def main():
             nontriv.add(json.dumps(p))
         if len(samples) < 3 and i >= ncat and count_nodes(p) >= 7:
             samples.append({"program": p, "trace": r["trace"]})
+    # ---- the storage accessors and the context manager: interpreter of the REGENERATED source terms (model/SL.v over
+    #      gen/StorageSrc.v) against the real functions, on op sequences from a fresh thread's view of the cells
+    def sdict():
+        return R.rng.choice([{}, {}, {"k": 2}, {"n": 3, "m": 5}])
+    def gen_seq():
+        seq = []
+        for _ in range(R.rng.choice([3, 5, 8, 12])):
+            k = R.rng.choice(["has", "get", "set", "push", "push", "pop", "clearpath", "setpath", "setpath", "getpath", "clearflat", "setflat", "getflat", "enter", "enter", "exit"])
+            if k == "set":
+                seq.append([k, sdict(), sdict(), sdict(), sdict()])
+            elif k == "push":
+                seq.append([k, sdict()])
+            elif k == "setpath":
+                seq.append([k, R.rng.choice([None, 0, 1, 7, 12]), R.rng.choice(["T", "S", "tree 1"])])
+            elif k in ("enter", "exit"):
+                seq.append([k, R.rng.randrange(2)])
+            else:
+                seq.append([k])
+        return seq
+    seqs = [[["pop"]], [["get"], ["has"], ["set", {}, {}, {}, {}], ["getflat"], ["getpath"]], [["push", {"k": 2}], ["push", {}], ["set", {"n": 3}, {}, {}, {}], ["get"], ["setpath", 1, "T"], ["setpath", 0, "S"], ["pop"], ["pop"], ["pop"]],
+            [["enter", 0], ["enter", 0], ["enter", 1], ["exit", 0], ["exit", 1], ["exit", 0], ["exit", 0]], [["setpath", None, "T"], ["getpath"], ["clearpath"], ["getpath"], ["setflat"], ["getflat"], ["clearflat"], ["getflat"]]]
+    seqs += [gen_seq() for _ in range(6000 if R.thorough else 300)]
+    try:
+        sout = vf.impl("impl_storage.py", {"seqs": seqs})
+    except vf.ImplCrash as e:
+        sout = None
+        R.violation("correspondence", "the storage-accessor worker could not run on this tree: %s" % str(e)[-500:], {"worker": "impl_storage.py"}, key={"kind": "storage-worker"}, no_input=True)
+    if sout is not None:
+        def cdict(x):
+            return "DEmpty" if not x else "(DArgs [%s])" % "; ".join("(%s, %s)" % (vf.coqstr(k), vf.coqz(v)) for k, v in x.items())
+        def cop(o):
+            k = o[0]
+            if k == "set":
+                return "(OSet %s)" % " ".join(cdict(x) for x in o[1:5])
+            if k == "push":
+                return "(OPush %s)" % cdict(o[1])
+            if k == "setpath":
+                return "(OSetPath %s %s)" % ("None" if o[1] is None else "(Some %s)" % vf.coqz(o[1]), vf.coqstr(o[2]))
+            return {"has": "OHas", "get": "OGet", "pop": "OPop", "clearpath": "OClearPath", "getpath": "OGetPath", "clearflat": "OClearFlat", "setflat": "OSetFlat", "getflat": "OGetFlat", "enter": "OEnter", "exit": "OExit"}[k]
+        smodel = vf.coq_eval_strings(["model.SL", "gen.StorageSrc"], "fun ops => sep_concat \" ;; \" (run_ops context_src ops (mktls None None None))",
+                                     ["[" + "; ".join(cop(o) for o in s) + "]" for s in seqs], shard=100)
+        for sq, im, mo in zip(seqs, sout, smodel):
+            R.count("storage-seq")
+            if " ;; ".join(im) != mo:
+                ml = mo.split(" ;; ")
+                j = next((i for i, (a, b) in enumerate(zip(im, ml)) if a != b), min(len(im), len(ml)))
+                R.violation("correspondence", "storage accessors: after %s the real functions give `%s`, the interpreted source terms (gen/StorageSrc.v) give `%s`" % (
+                    json.dumps(sq[:j + 1]), im[j] if j < len(im) else "-", ml[j] if j < len(ml) else "-"), {"ops": sq[:j + 1], "impl": im[:j + 1], "model": ml[:j + 1]}, key={"kind": "storage-accessors"}, no_input=True)
     if not proved:
         R.violation("proof", "proof obligations of props/C05.v no longer check: " + str(R.broken_proof)[-800:],
                     {"theorem_file": "coq/props/C05.v", "log": R.broken_proof}, no_input=not any(v["kind"] == "property" for v in R.violations))
-    R.coverage.update(evaluations=len(progs), distinct_nontrivial=len(nontriv), samples=samples,
+    R.coverage.update(evaluations=len(progs) + len(seqs), distinct_nontrivial=len(nontriv), samples=samples, storage_accessor_sequences=len(seqs), programs_with_one_context_object=sum(1 for x in shared if x),
                       rule="%d catalogue programs (each style/realisation x each exit x nesting depth 1-3; non-binding call; failing and raising parameter check; context block left by return / Exception / BaseException) + %d PRNG programs (depth <= 4, <= 14 nodes) interpreted with real decorated functions "
                            "(typeguard, beartype, dataclass __post_init__, method, old double-decorator, typechecker=None), generator functions and `with jaxtyped('context')` blocks. Oracles independent of the model: (depth, bindings, print_bindings text) before a block == after it; top level clean at the end. "
-                           "Model oracle: whole trace of verdicts / print_bindings / caught exception classes equals run_list (Coq). non-trivial = distinct program with >= 5 nodes and a call" % (ncat, n))
+                           "Model oracle: whole trace of verdicts / print_bindings / caught exception classes equals run_list (Coq). non-trivial = distinct program with >= 5 nodes and a call. "
+                           "A third of the programs use ONE jaxtyped('context') object for all their blocks. Storage accessors: %d op sequences (push/pop/get/set, '?'-label set/clear/get, flatten flag, __enter__/__exit__ of two context objects) "
+                           "on the real jaxtyping._storage functions in a fresh thread vs the interpretation (model/SL.v, inside Coq) of the terms regenerated from their source" % (ncat, n, len(seqs)))
     R.assumptions += ["asynchronous exceptions delivered between push and try (one bytecode wide) cannot be exhibited"]
     sys.exit(R.finish())
 
